@@ -16,7 +16,7 @@ from vmc.core import lattice, listing, pool
 from vmc.core.listing import ok, bad
 from vmc.core.report import HarnessError
 
-FORMATS = ["glyf_colr_1", "picosvg", "cbdt"]
+FORMATS = ["glyf_colr_1", "picosvg", "cbdt", "untouchedsvg"]  # untouchedsvg hands the *sources themselves* (paths outside the build dir) to the later steps
 
 
 def source_texts(n):
@@ -80,7 +80,9 @@ def place(w, case, n):
         srcdir = srcdir / "s1"
     else:
         files = cli.write_sources(srcdir, texts)
-    bd = {"default": w / "build", "nested": w / "a" / "b" / "c" / "d" / "build", "space": w / "dir with space" / "build"}[case.get("build_dir", "default")]
+    bd = {"default": w / "build", "nested": w / "a" / "b" / "c" / "d" / "build", "space": w / "dir with space" / "build",
+          # inside one of the source directories: the sources' paths relative to the build directory then sort differently
+          "in_src": srcdir / "build"}[case.get("build_dir", "default")]
     cwd = {"work": w, "src": srcdir, "src-rel": srcdir, "root": Path("/")}[case.get("cwd", "work")]
     return cwd, bd, files
 
@@ -334,7 +336,7 @@ def run(report, tier, only=None):
         # for every iteration order of the set of the first three source paths (see one_build)
         "seed": [0] + seed_values + [{"paths_order": list(o)} for o in itertools.permutations(range(3))],
         "jobs": [None, 1, 2, 16],
-        "build_dir": ["default", "nested", "space"],
+        "build_dir": ["default", "nested", "space", "in_src"],
         "cwd": ["work", "src", "src-rel", "root"],  # src-rel: run inside the source directory with relative arguments
         "srcdir": ["here", "moved"],
         "relative": [False, True],
